@@ -118,7 +118,7 @@ manifest = {
     ],
     "checks": checks,
     "not_applicable": na,
-    "notes": "exit 0 = held on everything explored; exit 1 + 'VIOLATION property=<id> replay=<path>' = violation; exit 2 = machinery failure (never a verdict). Known findings: /verif/known_findings.json (read-only at run time).",
+    "notes": "exit 0 = held on everything explored; exit 1 + 'VIOLATION property=<id> replay=<path>' = violation (a worker ended by the progress watchdog - the subject does not terminate - is a violation too); exit 2 = machinery failure without any validated violation (never a verdict). Known findings: /verif/known_findings.json (read-only at run time).",
 }
 json.dump(manifest, open("/verif/MANIFEST.json", "w"), indent=1)
 print("claimed:", sorted(CLAIMED.keys()))
